@@ -293,3 +293,73 @@ def dispatch(ctx):
            "a lexicon match pairs WordIdx(lexicon's own type, word_id) with params[word_id] of the "
            "same word_id" if okp else
            "a lexicon match pairs the word index and the parameters of different word ids")
+
+
+def tokiter(ctx):
+    """ITER (C01): TokenIter::next yields token(i) for every i in 0..num_tokens, each once, in
+    order: the guard is `i < num_tokens()` (as a normalised linear inequality), the token is taken
+    at the current counter, and the counter advances by exactly one on the yielding path only."""
+    from r_cand import _lin
+    from flow import bool_switch_targets
+    crate = ctx.facts("A").lib
+    E = Effects(crate)
+    ps = [q for q, f in crate.fns.items() if f.body and "TokenIter" in q and q.endswith("::next")
+          and f.j.get("impl_trait", "").endswith("Iterator")]
+    if len(ps) != 1:
+        raise EngineError("ITER: TokenIter::next not found (%d candidates)" % len(ps))
+    p = ps[0]
+    fa = E.fa(p)
+    S = Sym(E, fa)
+    loc = fn_loc(crate, p)
+    tok_calls = [(b, t) for b, t in fa.calls() if any(strip_generics(x).endswith("Worker::token") or
+                                                     x.endswith("::token") and "Worker" in x
+                                                     for x in callee_paths(t))]
+    if len(tok_calls) != 1:
+        raise EngineError("ITER: TokenIter::next does not call Worker::token exactly once")
+    tb, tt = tok_calls[0]
+    idx = S.operand(tt["args"][1])
+    it, ic = _lin(idx)
+    ok_idx = ic == 0 and it.endswith(".i")
+    # the dominating guard
+    guard = None
+    for b in sorted(fa.dominators().get(tb, ()), reverse=True):
+        t = fa.term(b)
+        if t["k"] != "switch":
+            continue
+        e = S.operand(t["op"])
+        if e[0] == "binop" and e[1] in ("Lt", "Le", "Gt", "Ge", "Ne", "Eq"):
+            guard = (b, e, t)
+            break
+    ok_guard, gtxt = False, "no comparison guards the yield"
+    if guard is not None:
+        b, e, t = guard
+        f_t, t_t = bool_switch_targets(t)
+        on_true = tb in fa.reachable(t_t, avoid={f_t})
+        (lt, lc), (rt, rc) = _lin(e[2]), _lin(e[3])
+        opn = e[1] if on_true else {"Lt": "Ge", "Le": "Gt", "Gt": "Le", "Ge": "Lt", "Ne": "Eq", "Eq": "Ne"}[e[1]]
+        gtxt = "%s %s %s (yield on the %s edge)" % (show(e[2]), e[1], show(e[3]), "true" if on_true else "false")
+        # normalise to  i - n < k  (k must be 0):   i + lc < n + rc  <=>  i - n < rc - lc
+        if lt.endswith(".i") and "num_tokens" in rt:
+            k = rc - lc if opn == "Lt" else rc - lc + 1 if opn == "Le" else None
+            ok_guard = k == 0 or (opn == "Ne" and rc - lc == 0)
+        elif rt.endswith(".i") and "num_tokens" in lt:
+            # n + lc > i + rc  <=>  i - n < lc - rc
+            k = lc - rc if opn == "Gt" else lc - rc + 1 if opn == "Ge" else None
+            ok_guard = k == 0 or (opn == "Ne" and rc - lc == 0)
+    ctx.ob("ITER", "%s|yields-every-index" % p, ok_idx and ok_guard, loc,
+           "TokenIter::next yields token(self.i) while self.i < num_tokens()" if ok_idx and ok_guard else
+           "TokenIter::next yields token(%s) under the guard %s: tokens are skipped, repeated or the "
+           "last one is never produced" % (show(idx), gtxt))
+    # the counter advances by one on the yielding path and nowhere else
+    incs = []
+    for b, i, s in fa.stmts():
+        if "lhs" in s and s["lhs"]["p"] and s["lhs"]["p"][-1] != "*" and isinstance(s["lhs"]["p"][-1], dict) \
+                and s["lhs"]["p"][-1].get("n") == "i":
+            e = S.operand(s["rv"]["op"]) if s["rv"]["k"] == "use" else None
+            incs.append((b, _lin(e) if e is not None else ("?", None)))
+    ok_inc = len(incs) == 1 and incs[0][1][1] == 1 and incs[0][1][0].endswith(".i") and \
+        (fa.dominates(tb, incs[0][0]) or fa.dominates(incs[0][0], tb)) and \
+        (guard is not None and fa.dominates(guard[0], incs[0][0]))
+    ctx.ob("ITER", "%s|advances-by-one" % p, ok_inc, loc,
+           "the counter is advanced by exactly one on the yielding path" if ok_inc else
+           "the iterator's counter is not advanced by exactly one per yielded token (%s)" % incs)
